@@ -1,10 +1,15 @@
 """C13 — loop prevention and the TTL hop limit."""
 import itertools
+from props import _worldprop as WP
+import worldhist as WH
+import worldgen as W
 ID = "C13"
 LEAN_TARGETS = ["Rsp.Props.C13"]
 THEOREMS = ["Rsp.Props.C13.decttl_length", "Rsp.Props.C13.decttl_zero", "Rsp.Props.C13.decttl_pos",
-            "Rsp.Props.C13.decttl_meets_spec"]
-RULE = ("decttl: every value of length 0..2 (quick) / 0..3 (thorough) enumerated, longer ones sampled around borrow chains; "
+            "Rsp.Props.C13.decttl_meets_spec", "Rsp.Props.C13.checkttl_plain", "Rsp.Props.C13.checkttl_plain_first",
+            "Rsp.Props.C13.addttl_plain", "Rsp.Props.C13.effAddTtl_table", "Rsp.Props.C13.loopPrevents_iff"]
+RULE = ("world: histories with TTL attributes of the configured type (plain or vendor) at 0,1,2,3,256,.. and odd lengths on requests and replies, AddTTL per peer/global, "
+        "client and server blocks sharing a name under LoopPrevention on/off/unset; non-trivial = something was forwarded or delivered. decttl: every value of length 0..2 (quick) / 0..3 (thorough) enumerated, longer ones sampled around borrow chains; "
         "a case is non-trivial when the value is non-empty and distinct by content")
 EXHAUSTIVE = {"quick": ["decttl: all values of length 0,1,2"], "thorough": ["decttl: all values of length 0,1,2,3"]}
 ASSUMPTIONS = ["byte values are uint8; lengths < 256 as in struct tlv"]
@@ -42,9 +47,46 @@ def gen(rng, tier):
 
 
 def nontrivial(c):
+    if c.tags.get("kind") == "ttlworld" or len(c.lines) > 1:
+        return bool(c.tags.get("forwarded") or c.tags.get("good-reply"))
     return c.lines[0].split()[1] != "-"
 
-LEVEL_TEXT = ("Machine-checked Lean 4 theorems: for TTL values of EVERY length, the model of decttl stores n-1 big-endian in the same length and "
+
+project = WP.make_project(ID)
+relevant_verdict = WP.make_relevant(ID)
+
+
+def build_ttl(exe, rng, idx):
+    """whole-pipeline histories: TTL attributes (plain and vendor types) at the boundary values on requests and
+    replies, AddTTL per peer and global, client and server blocks sharing a name with LoopPrevention on/off/unset"""
+    cfg = W.rand_cfg(rng, rewrites=rng.random() < 0.25, ttl=True, plain_ttl=(rng.random() < 0.5))
+    if rng.random() < 0.5:
+        cfg.opts["addttl"] = rng.choice([1, 2, 3, 64, 255])
+    cfg.opts["loopprev"] = int(rng.random() < 0.5)
+    cfg.opts["verifyeap"] = 0
+    if rng.random() < 0.6:     # a peer that is both client and server
+        sv = rng.choice(cfg.servers)
+        cl = rng.choice(cfg.clients)
+        old = sv["name"]
+        if all(s is sv or s["name"] != cl["name"] for s in cfg.servers):
+            sv["name"] = cl["name"] if rng.random() < 0.7 else rng.choice([cl["name"].upper(), cl["name"].capitalize(), cl["name"] + "x", cl["name"][:-1]])
+            for r in cfg.realms:
+                for key in ("srv", "acc"):
+                    if r[key]:
+                        r[key] = [sv["name"] if n == old else n for n in r[key]]
+        sv["loopprev"] = rng.choice([255, 255, 0, 1, 1])
+    for c in cfg.clients:
+        c["reqma"] = c["reqmap"] = False
+    return WH.generic_history(exe, rng, idx, dict(p_ttlattr=0.7, p_replyttl=0.6, p_mutate=0.03, p_badreply=0.05, p_reply=0.3, p_rq=0.4,
+                                                  p_writer=0.1, p_tick=0.02, p_reset=0.02, p_dup=0.05, max_steps=22, min_steps=6), cfg=cfg)
+
+
+def gen_run(exe, rng, tier):
+    return WH.run_parallel(exe, rng, 300 if tier == "quick" else 6000, build_ttl)
+
+LEVEL_TEXT = ("Machine-checked Lean 4 theorems: checkttl decrements exactly the first TTL attribute and leaves the rest (checkttl_plain, checkttl_plain_first), AddTTL appends the "
+              "configured value (addttl_plain, effAddTtl_table), loop prevention holds a request back iff in effect and names equal (loopPrevents_iff); the whole pipeline with these "
+              "steps is the World model, tied to radsrv/replyh by differential histories, with the hop rule evaluated on the implementation's own forwarded packets. For TTL values of EVERY length, the model of decttl stores n-1 big-endian in the same length and "
               "reports 'pass on' exactly when n>=2 (decttl_meets_spec, by induction over the byte list - no bound). The model is tied to the C code by "
               "exhaustive differential runs (all values of length <=2/3) plus sampled borrow chains under ASan/UBSan, and the executable spec is evaluated on the C outputs.")
 LEVEL_NOTE = ("Trusted: Lean kernel; axioms propext/Classical.choice/Quot.sound; the correspondence harness. Modelled rather than verified: decttl/checkttl as "
